@@ -17,7 +17,7 @@ func init() {
 		Explanation: `R09.1 in safeKeeperReader.Read the inner reader is read only after validateBlock was called on every path and only on the nil outcome of its result; ` +
 			`R09.2 raw readers of the inner pool never escape: they flow only into the rs field of a safeKeeperReader, the pool methods return only *safeKeeperReader, and methods of the rs field are called only from the wrapper's own methods; ` +
 			`R09.3 validateBlock restores the reader position (Seek to the offset saved before the first move) on every path after it moved the reader; ` +
-			`R09.4 safeKeeperReader.offset mirrors the wrapped reader's position: Seek stores the result of the inner Seek, Read adds the inner Read's count, and every construction site initialises offset from a Seek on the same reader; R09.6 the chunk size of the bsdiff read cache (lrufile.New) is a constant that divides pwr.BlockSize, so that a chunk-aligned chunk read never covers a block the safekeeper's per-offset validation did not check. ` +
+			`R09.4 safeKeeperReader.offset mirrors the wrapped reader's position: Seek stores the result of the inner Seek, Read adds the inner Read's count, and every construction site initialises offset from a Seek on the same reader; R09.6 the chunk size of the bsdiff read cache (lrufile.New) is a constant that divides pwr.BlockSize, so that a chunk-aligned chunk read never covers a block the safekeeper's per-offset validation did not check; R09.7 the data validateBlock hands to the block validator is its buffer cut at the count the read into that buffer returned. ` +
 			`NOT decided: that every damage is noticed (depends on which blocks a patch reads), the verdict cache, reads at EOF of a file whose size is a multiple of 64KiB (defect F13, arithmetic).`,
 		Assumptions: []string{"the wrapped reader is the field rs of safeKeeperReader; the inner pool is the field inner of safeKeeper"},
 		Run:         runC09,
@@ -30,6 +30,7 @@ func runC09(c *core.Ctx) {
 	c.Rule("R09.3", "position restored after validation")
 	c.Rule("R09.4", "offset mirrors the wrapped reader's position")
 	c.Rule("R09.6", "cache chunks never straddle validated blocks")
+	c.Rule("R09.7", "what is judged is what was read")
 	read := c.P.Fn("pwr", "safeKeeperReader.Read")
 	seek := c.P.Fn("pwr", "safeKeeperReader.Seek")
 	vb := c.P.Fn("pwr", "safeKeeper.validateBlock")
@@ -309,6 +310,56 @@ func runC09(c *core.Ctx) {
 		})
 	}
 	c.Floor("R09.4", "construction sites of safeKeeperReader", nc, 1)
+
+	// ---- R09.7: what is judged is what was read: the data handed to the block validator is the buffer
+	// cut at the count the read returned (the buffer is shared by all validations and never cleared)
+	{
+		nv := 0
+		core.Instrs(vb, func(in ssa.Instruction) {
+			cl, ok := in.(*ssa.Call)
+			if !ok || !cl.Call.IsInvoke() || !strings.HasPrefix(cl.Call.Method.Name(), "ValidateAs") || len(cl.Call.Args) == 0 {
+				return
+			}
+			nv++
+			data := cl.Call.Args[len(cl.Call.Args)-1]
+			okData := false
+			for _, o := range core.Origins(data) {
+				sl, ok := o.(*ssa.Slice)
+				if !ok || sl.High == nil {
+					continue
+				}
+				if sl.Low != nil {
+					if z, isC := core.ConstInt(sl.Low); !isC || z != 0 {
+						continue
+					}
+				}
+				// High is the count (#0) of a read into the sliced buffer
+				for _, h := range core.Origins(sl.High) {
+					ex, ok := h.(*ssa.Extract)
+					if !ok || ex.Index != 0 {
+						continue
+					}
+					rc, ok := ex.Tuple.(*ssa.Call)
+					if !ok {
+						continue
+					}
+					var bufArg ssa.Value
+					switch {
+					case rc.Call.IsInvoke() && rc.Call.Method.Name() == "Read" && len(rc.Call.Args) == 1:
+						bufArg = rc.Call.Args[0]
+					case (core.CalleeName(rc) == "io.ReadFull" || core.CalleeName(rc) == "io.ReadAtLeast") && len(rc.Call.Args) >= 2:
+						bufArg = rc.Call.Args[1]
+					}
+					if bufArg != nil && (sameVal(bufArg, sl.X) || sameExpr(bufArg, sl.X)) {
+						okData = true
+					}
+				}
+			}
+			c.Check(okData, "R09.7", core.FnName(vb), "the validated data is the buffer cut at the count read", core.InstrPos(in),
+				"data = buf[:n], n the count returned by the read into buf", "the block validator is handed bytes that were not read by this validation (the shared buffer beyond the count read, or another slice): stale bytes of a previously validated block can make a truncated or damaged block pass")
+		})
+		c.Floor("R09.7", "block validations in validateBlock", nv, 1)
+	}
 
 	// ---- R09.6: the safekeeper's Read checks the one block that holds the current offset and then forwards the
 	// caller's whole buffer. Its large reads come from the bsdiff cache in front of the old file, in chunks at
